@@ -429,6 +429,9 @@ class BucketWriter:
         Raise ``ConflictingWriteError`` if the data differs from what was
         already written; write nothing.
         """
+        # Like write(), receiving data (even data we go on to reject) delays
+        # the upload timeout.
+        self._timeout.reset(30 * 60)
         end = offset + len(data)
         for (chunk_start, chunk_stop, _) in self._already_written.ranges(offset, end):
             chunk_len = chunk_stop - chunk_start
